@@ -1,5 +1,6 @@
 import OdcGeo.Model.C13
 import OdcGeo.Model.C12
+import OdcGeo.Model.C13Nd
 namespace OdcGeo.C13.Drv
 open OdcGeo OdcGeo.IO OdcGeo.C13
 
@@ -161,6 +162,27 @@ def run (args : List String) : Option String :=
       pure (fmtRes (fun g => if g.isEmpty then "-" else "|".intercalate (g.map fun e =>
         s!"{e.1.1}.{e.1.2}=" ++ "+".intercalate (e.2.map fun i => s!"{i.1}.{i.2}")))
         (C12.gridIntersectLinear dst src A))
+  | "nd" :: ydim :: tables :: planes :: rest => do
+    -- N-d `_dask_rio_reproject(...).compute()`: spatial axes at `ydim`, one chunk list per other axis
+    -- (`[2,2,1]/[1,2]`, `-` = none), source planes in row-major order of the non-spatial index, `/`-separated
+    let x ← parseCommon? rest
+    let ydim ← parseNat? ydim
+    let tabs ← if tables = "-" then some [] else (tables.splitOn "/").mapM (parseList? parseNat?)
+    let pls ← (planes.splitOn "/").mapM parseRows?
+    let shape : List Nat := tabs.map fun t => t.foldl (· + ·) 0
+    let tilings := tabs.map chunksTiling
+    -- all non-spatial indices, row-major
+    let idxs : List (List Int) := shape.foldr (fun n acc =>
+      (List.range n).flatMap fun (i : Nat) => acc.map fun r => (i : Int) :: r) [[]]
+    let flat (e : List Int) : Nat := (e.zip shape).foldl (fun a (v, n) => a * n + v.toNat) 0
+    let arr : List Int → Option Val := fun full => do
+      let (e, y, xx) ← splitYX ydim full
+      if e.length ≠ shape.length ∨ (e.zip shape).any (fun (v, n) => v < 0 ∨ v ≥ (n : Int)) then none
+      else
+        let pl ← pls[flat e]?
+        imgOfRows pl (y, xx)
+    pure ("/".intercalate (idxs.map fun e =>
+      fmtImg x.c.dstH x.c.dstW fun p => daskResultFull ydim tilings x.c x.G arr (withYX ydim e p.1 p.2)))
   | "warp" :: rest => do
     -- `_rio_reproject` on a caller buffer (no NaN default); chunk fields unused
     let x ← parseCommon? rest
